@@ -245,6 +245,16 @@ def p_reduced(out, clean, noisy):
     return float(np.linalg.norm(out - clean)) < float(np.linalg.norm(np.asarray(noisy) - clean))
 
 
+def real(ctx, key, what, sc, f, *a, **k):
+    """call the real code; an exception on an input of the property's domain is a violation ("returns ...")"""
+    try:
+        with quiet():
+            return True, f(*a, **k)
+    except Exception as e:
+        ctx.violation(key + "-raised", f"{what} raised {type(e).__name__}: {str(e)[:120]}", sc)
+        return False, None
+
+
 def plane_waves(x, y, nf, nrnd, nwaves):
     W = np.zeros((x.size, nf), dtype=complex)
     for _ in range(nwaves):
@@ -266,19 +276,19 @@ def numeric_cadzow(ctx, rnd, nrnd, fullrank, n_id, n_noise):
         full = fullrank[nx - 1][ny - 1]
         sc = {"kind": "cadzow", "nx": nx, "ny": ny, "stag": stag, "seed": rnd.randrange(10 ** 9), "nf": nf}
         W = nrnd.standard_normal((x.size, nf)) + 1j * nrnd.standard_normal((x.size, nf))
-        with quiet():
-            out = cadzow.denoise(W.copy(), x, y, full, niter=rnd.choice([1, 2]))
+        ok, out = real(ctx, "cadzow:full-rank-identity", f"cadzow.denoise on a {nx}x{ny} layout at full rank {full}", dict(sc, case="full"),
+                       cadzow.denoise, W.copy(), x, y, full, niter=rnd.choice([1, 2]))
         done += 1
-        if not p_same(out, W, 1e-9):
+        if ok and not p_same(out, W, 1e-9):
             ctx.violation("cadzow:full-rank-identity", f"cadzow.denoise on a {nx}x{ny}{' staggered' if stag else ''} layout at full rank "
                           f"{full} changes its input by {np.max(np.abs(out - W)):.3g}", dict(sc, case="full"))
         if not stag:
             P = plane_waves(x, y, nf, nrnd, 1)
             for r in range(1, min(3, full) + 1):
-                with quiet():
-                    out = cadzow.denoise(P.copy(), x, y, r)
+                ok, out = real(ctx, "cadzow:plane-wave-identity", f"cadzow.denoise of one plane wave on a {nx}x{ny} grid at rank {r}",
+                               dict(sc, case="plane", rank=r), cadzow.denoise, P.copy(), x, y, r)
                 done += 1
-                if not p_same(out, P, 1e-9):
+                if ok and not p_same(out, P, 1e-9):
                     ctx.violation("cadzow:plane-wave-identity", f"cadzow.denoise of one plane wave on a {nx}x{ny} grid at rank {r} "
                                   f"changes its input by {np.max(np.abs(out - P)):.3g}", dict(sc, case="plane", rank=r))
     # noise reduction below full rank: well-posed scenarios (regular grid with >= 12 rows, rank = number of waves)
@@ -291,10 +301,10 @@ def numeric_cadzow(ctx, rnd, nrnd, fullrank, n_id, n_noise):
             continue
         S = plane_waves(x, y, 4, nrnd, nw)
         Nz = 0.3 * (nrnd.standard_normal(S.shape) + 1j * nrnd.standard_normal(S.shape))
-        with quiet():
-            out = cadzow.denoise(S + Nz, x, y, nw)
+        ok, out = real(ctx, "cadzow:noise-reduced", f"cadzow.denoise at rank {nw} on a {nx}x{ny} grid", {"kind": "cadzow", "case": "noise"},
+                       cadzow.denoise, S + Nz, x, y, nw)
         done += 1
-        if not p_reduced(out, S, S + Nz):
+        if ok and not p_reduced(out, S, S + Nz):
             ctx.violation("cadzow:noise-reduced", f"cadzow.denoise at rank {nw} on a {nx}x{ny} grid does not reduce the added noise: "
                           f"error {np.linalg.norm(out - S):.3g} vs noise {np.linalg.norm(Nz):.3g}", {"kind": "cadzow", "case": "noise"})
     ctx.count(done)
@@ -316,9 +326,10 @@ def numeric_svd(ctx, rnd, nrnd, n):
         if rnd.random() < 0.5:
             coll = coll[nrnd.permutation(nc)]
         for c in (None, coll):
-            out = voltage.svd_denoise_npx(D.copy(), rank=nc, collection=c)
+            ok, out = real(ctx, "svd:full-rank-identity", f"svd_denoise_npx({nc}x{ns}, rank={nc})", {"kind": "svd"},
+                           voltage.svd_denoise_npx, D.copy(), rank=nc, collection=c)
             done += 1
-            if not p_same(out, D, 1e-9):
+            if ok and not p_same(out, D, 1e-9):
                 ctx.violation("svd:full-rank-identity", f"svd_denoise_npx({nc}x{ns}, rank={nc}, collection={'None' if c is None else c.tolist()}) "
                               f"changes its input by {np.max(np.abs(out - D)):.3g}", {"kind": "svd"})
         # low-rank signal + noise, requested rank = rank of the signal
@@ -326,13 +337,13 @@ def numeric_svd(ctx, rnd, nrnd, n):
         if ns >= 4 * k and nc >= 4 * k:
             S = nrnd.standard_normal((nc, k)) @ nrnd.standard_normal((k, ns))
             Nz = 0.2 * nrnd.standard_normal((nc, ns))
-            out = voltage.svd_denoise_npx(S + Nz, rank=k)
+            ok, out = real(ctx, "svd:noise-reduced", f"svd_denoise_npx({nc}x{ns}, rank={k})", {"kind": "svd"}, voltage.svd_denoise_npx, S + Nz, rank=k)
             done += 1
-            if not p_reduced(out, S, S + Nz):
+            if ok and not p_reduced(out, S, S + Nz):
                 ctx.violation("svd:noise-reduced", f"svd_denoise_npx({nc}x{ns}, rank={k}) does not reduce the added noise", {"kind": "svd"})
-            out = voltage.svd_denoise_npx(S.copy(), rank=k)
+            ok, out = real(ctx, "svd:rank-k-identity", f"svd_denoise_npx({nc}x{ns}, rank={k})", {"kind": "svd"}, voltage.svd_denoise_npx, S.copy(), rank=k)
             done += 1
-            if not p_same(out, S, 1e-9):
+            if ok and not p_same(out, S, 1e-9):
                 ctx.violation("svd:rank-k-identity", f"svd_denoise_npx of a rank-{k} {nc}x{ns} matrix at rank {k} changes its input by "
                               f"{np.max(np.abs(out - S)):.3g}", {"kind": "svd"})
     ctx.count(done)
@@ -350,21 +361,23 @@ def numeric_smooth(ctx, rnd, nrnd, n):
         f0 = rnd.uniform(0.02, 0.6)
         fac = [f0, f0 + rnd.uniform(0.02, 0.3)]
         pad = rnd.choice([0.05, 0.2, 0.5, 1.0])
-        out = smooth.lp(x, fac, pad=pad)
         z = nrnd.standard_normal(m)
-        out2 = smooth.lp(z, fac, pad=pad)
+        ok, out = real(ctx, "smooth:lp", f"smooth.lp(n={m}, fac={fac}, pad={pad})", {"kind": "smooth"}, smooth.lp, x, fac, pad=pad)
+        ok2, out2 = real(ctx, "smooth:lp", f"smooth.lp(n={m}, fac={fac}, pad={pad})", {"kind": "smooth"}, smooth.lp, z, fac, pad=pad)
         done += 2
-        if not p_same(out, x, 1e-9) or np.asarray(out2).shape != z.shape:
+        if ok and ok2 and (not p_same(out, x, 1e-9) or np.asarray(out2).shape != z.shape):
             ctx.violation("smooth:lp", f"smooth.lp(n={m}, fac={fac}, pad={pad}): constant {c} -> deviation "
                           f"{np.max(np.abs(np.asarray(out) - c)) if np.asarray(out).shape == x.shape else 'shape ' + str(np.asarray(out).shape)}, "
                           f"random input length {np.asarray(out2).shape}", {"kind": "smooth"})
         wl = rnd.choice([1, 3, 5, 7, 9, 11, 15, 21, 31])
         win = rnd.choice(["flat", "hanning", "hamming", "bartlett", "blackman"])
         if m >= wl:
-            out = smooth.rolling_window(x, window_len=wl, window=win)
-            out2 = smooth.rolling_window(list(z), window_len=wl, window=win)
+            ok, out = real(ctx, "smooth:rolling-window", f"smooth.rolling_window(n={m}, window_len={wl}, {win})", {"kind": "smooth"},
+                           smooth.rolling_window, x, window_len=wl, window=win)
+            ok2, out2 = real(ctx, "smooth:rolling-window", f"smooth.rolling_window(list, n={m}, window_len={wl}, {win})", {"kind": "smooth"},
+                             smooth.rolling_window, list(z), window_len=wl, window=win)
             done += 2
-            if not p_same(out, x, 1e-9) or np.asarray(out2).shape != z.shape:
+            if ok and ok2 and (not p_same(out, x, 1e-9) or np.asarray(out2).shape != z.shape):
                 ctx.violation("smooth:rolling-window", f"smooth.rolling_window(n={m}, window_len={wl}, {win}): constant {c} -> "
                               f"{np.asarray(out).shape} max dev {np.max(np.abs(np.asarray(out) - c)) if np.asarray(out).shape == x.shape else 'n/a'}, "
                               f"random input length {np.asarray(out2).shape}", {"kind": "smooth"})
@@ -376,9 +389,10 @@ def numeric_smooth(ctx, rnd, nrnd, n):
         for deg in range(order + 1):
             co = nrnd.standard_normal(deg + 1)
             yy = np.polyval(co, (xx - xx.mean()) / (np.ptp(xx) / 2))
-            out = smooth.non_uniform_savgol(xx, yy, window, order)
+            ok, out = real(ctx, "smooth:savgol-polynomial", f"non_uniform_savgol(window={window}, polynom={order}, {npts} points)", {"kind": "smooth"},
+                           smooth.non_uniform_savgol, xx, yy, window, order)
             done += 1
-            if not p_same(out, yy, 1e-6):
+            if ok and not p_same(out, yy, 1e-6):
                 ctx.violation("smooth:savgol-polynomial", f"non_uniform_savgol(window={window}, polynom={order}) does not reproduce a polynomial of "
                               f"degree {deg} on {npts} irregular abscissae: max error {np.max(np.abs(out - yy)):.3g}", {"kind": "smooth"})
         # NaN gaps
@@ -397,10 +411,11 @@ def numeric_smooth(ctx, rnd, nrnd, n):
         window = rnd.choice([5, 11, 31])
         order = rnd.choice([1, 2, 3])
         if np.sum(~np.isnan(sig)) > window + 2:
-            with quiet():
-                out = smooth.smooth_interpolate_savgol(sig, window=window, order=order, interp_kind=rnd.choice(["linear", "quadratic", "cubic"]))
+            ok, out = real(ctx, "smooth:savgol-nan", f"smooth_interpolate_savgol(n={npts}, window={window}, order={order}, NaN pattern {pat})",
+                           {"kind": "smooth"}, smooth.smooth_interpolate_savgol, sig, window=window, order=order,
+                           interp_kind=rnd.choice(["linear", "quadratic", "cubic"]))
             done += 1
-            if np.asarray(out).shape != sig.shape or not np.all(np.isfinite(out)):
+            if ok and (np.asarray(out).shape != sig.shape or not np.all(np.isfinite(out))):
                 ctx.violation("smooth:savgol-nan", f"smooth_interpolate_savgol(n={npts}, window={window}, order={order}, NaN pattern {pat}) "
                               f"returns non-finite values or a different length", {"kind": "smooth"})
     ctx.count(done)
@@ -437,7 +452,7 @@ def run(ctx):
     # 2./3. venn
     for name in (f"venn2_{tier}", f"venn3_{tier}"):
         cases = export(ctx, name)
-        cap = 700 if ctx.quick else 6000
+        cap = 700 if ctx.quick else 4000
         if len(cases) > cap:
             cases = rnd.sample(cases, cap)
         for c in cases:
